@@ -179,8 +179,10 @@ class CFG:
                             if names is None or any(x in CATCH_ALL for x in names):
                                 caught_all = True
                         else:
-                            if names is None or any(x in CLOSE_CATCHERS for x in names):
+                            # GeneratorExit is a BaseException: the first clause that catches it takes the close, for certain
+                            if not caught_all and (names is None or any(x in CLOSE_CATCHERS for x in names)):
                                 self._edge(d, "close", entry)
+                                caught_all = True
                     if not caught_all:
                         self._edge(d, kind, self._after_finally(kind, fr, outer))
                     return d
